@@ -38,7 +38,8 @@ def write(prop, tier, seed, level, coverage, wall_s, violations, assumptions):
           "coverage": coverage, "assumptions": assumptions,
           "wall_s": round(wall_s, 2), "violations": int(violations)}
     _validate(ev)
-    d = os.path.join(VERIF, "evidence")
+    # only the mutant driver redirects evidence (tools/mutant.sh)
+    d = os.environ.get("VERIF_EVIDENCE_DIR") or os.path.join(VERIF, "evidence")
     os.makedirs(d, exist_ok=True)
     path = os.path.join(d, prop + ".json")
     tmp = path + ".tmp"
